@@ -161,6 +161,7 @@ type RunOpts struct {
 	AbstractMul bool
 	Native      bool
 	Conc        bool
+	RunInit     bool // execute the package's variable initialisers before the harness
 	Filter2     *regexp.Regexp
 }
 
@@ -258,7 +259,14 @@ func runOneMode(ld *Loaded, fn *ssa.Function, opts RunOpts, pool *Pool, abstract
 				res.Detail = fmt.Sprintf("engine panic: %v\n%s", r, debug.Stack())
 			}
 		}()
-		ex.callFunction(fn, nil, nil, Heap{}, ex.ts.True, 0)
+		heap0 := Heap{}
+		if opts.RunInit {
+			if initFn := fn.Pkg.Func("init"); initFn != nil && initFn.Blocks != nil {
+				ex.rootPkg = fn.Pkg
+				_, heap0 = ex.callFunction(initFn, nil, nil, heap0, ex.ts.True, 0)
+			}
+		}
+		ex.callFunction(fn, nil, nil, heap0, ex.ts.True, 0)
 	}()
 	if ex.Conc != nil && res.Status != "unsupported" {
 		func() {
